@@ -15,8 +15,9 @@ for id in $ids; do
   if ! git -C $clone/repo apply $here/$d/patch.diff 2>/dev/null; then echo "$id: PATCH DOES NOT APPLY" | tee -a $sum; continue; fi
   out=""
   for p in $prop $extra; do
-    # a seeded tree can blow the path count up; a smaller per-harness budget is enough to find it
-    VERIF_MAX_PATHS=${SEED_MAX_PATHS:-4000} VERIF_REPO=$clone/repo ./check $p --tier quick > $clone/${id}_$p.log 2>&1; rc=$?
+    # the registered quick check, unchanged; the engine's early cut keeps a tree that already shows
+    # violations from exploring to the end (SEED_MAX_PATHS lowers the per-harness budget if wanted)
+    VERIF_MAX_PATHS=${SEED_MAX_PATHS:-} VERIF_REPO=$clone/repo ./check $p --tier quick > $clone/${id}_$p.log 2>&1; rc=$?
     v=$(grep -c '^VIOLATION' $clone/${id}_$p.log)
     out="$out $p:rc=$rc,violations=$v"
     grep -A1 '^VIOLATION' $clone/${id}_$p.log | grep harness | head -3 | sed "s/^/    $id $p /" >> $sum
